@@ -572,6 +572,8 @@ impl MempoolInner {
                             .add(promotion_tx, current_nonce, &current_balances)
                     {
                         self.contained_txs.remove(&tx_id);
+                        // report the dropped transaction instead of losing it silently
+                        removed_txs.push((tx_id, RemovalReason::InternalError));
                         self.metrics.increment_internal_logic_error();
                         error!(
                             address = %telemetry::display::base64(&address_bytes),
@@ -589,6 +591,8 @@ impl MempoolInner {
                             .add(demotion_tx, current_nonce, &current_balances)
                     {
                         self.contained_txs.remove(&tx_id);
+                        // report the dropped transaction instead of losing it silently
+                        removed_txs.push((tx_id, RemovalReason::InternalError));
                         self.metrics.increment_internal_logic_error();
                         error!(
                             address = %telemetry::display::base64(&address_bytes),
